@@ -100,3 +100,8 @@ CASES += [
     {"name": "absorption spectrum export with a misspelt keyword", "kind": "mutant", "rule": "C18-M", "edits": [
         ("quantarhei/spectroscopy/absbase.py", "        super().save_data(filename, with_axis=self.axis)", "        super().save_data(filename, withaxis=self.axis)", 1)]},
 ]
+
+CASES += [
+    {"name": "loader rewinds the file it is given (seeded change of round 7)", "kind": "mutant", "rule": "C18-N", "edits": [
+        ("quantarhei/core/parcel.py", "    else:\n        obj = pickle.load(filename)\n", "    else:\n        filename.seek(0)\n        obj = pickle.load(filename)\n", 1)]},
+]
